@@ -1,3 +1,236 @@
+(* C06 — the disk blob store restores its state after a crash at any point.
+   Statements only; every proof is `exact <lemma from Proof/C06.v>`.
+
+   Vocabulary (Model/C06.v): [reach c s] = every state of the store: fresh, after any completed
+   operation, after a crash at ANY point of any operation followed by recovery (any number of
+   crashes).  [crash c s o k] = the disk after the first k mutating calls of operation o issued in
+   state s (all k; k beyond the last call = every call done, memory lost).  [recover] = disk.NewStore on
+   that disk (with fixes/C06_*.patch).  [wf_op] = the client contract: legal oracles (any order in
+   which RemoveAll unlinks the files; any evictable victim), data writes inside the reservation,
+   registered metadata kinds.  All theorems hold for both settings of RebootIncompleteBlobs and
+   every shard layout (the configuration c is universally quantified). *)
 From Coq Require Import List NArith Bool.
 From K.Model Require Import C06.
 From K.Proof Require C06.
+Import ListNotations.
+Local Open Scope N_scope.
+
+(* 1. After a crash at any point of any operation, reopening succeeds. *)
+Theorem C06_reopen_succeeds : forall c s o k,
+  reach c s -> wf_op c s o = true -> exists s', recover c (crash c s o k) = Some s'.
+Proof. exact Proof.C06.reopen_succeeds. Qed.
+Print Assumptions C06_reopen_succeeds.
+
+(* 2. Every blob complete before the crash (its MarkComplete returned: it is complete in s) and not
+   being deleted / evicted by the interrupted operation is listed complete, with bytes, eviction
+   ban and metadata (pub = data, ban flag, metadata files) exactly as before the interrupted
+   operation or exactly as after it; its accounted size is the length of its bytes. *)
+Theorem C06_completed_survive : forall c s o k s' x e,
+  reach c s -> wf_op c s o = true ->
+  mem s x = Some e -> e_complete e = true -> removes o x = false ->
+  recover c (crash c s o k) = Some s' ->
+  exists d' b', dir_of s' x = Some d' /\ d_data d' = Some b' /\
+    mem s' x = Some (mkment (N.of_nat (length b')) true (d_ban d')) /\
+    (option_map pub (dir_of s x) = Some (pub d') \/
+     option_map pub (dir_of (st_of (step c s o)) x) = Some (pub d')).
+Proof. exact Proof.C06.completed_survive. Qed.
+Print Assumptions C06_completed_survive.
+
+(* 2'. PARTIAL for the one blob whose Delete / eviction the crash interrupted (RemoveAll in any
+   order): it is gone without a trace, or still listed with its bytes and a SUBSET of its ban flag
+   and metadata — not necessarily all of them (the files RemoveAll already unlinked are lost). *)
+Theorem C06_interrupted_removal_partial : forall c s o k s' x e,
+  reach c s -> wf_op c s o = true -> mem s x = Some e -> removes o x = true ->
+  recover c (crash c s o k) = Some s' ->
+  (mem s' x = None /\ blobs (disk s') x = (None, None)) \/
+  exists d0 d' b, dir_of s x = Some d0 /\ dir_of s' x = Some d' /\ d_data d0 = Some b /\ d_data d' = Some b /\
+    mem s' x = Some (mkment (if e_complete e then N.of_nat (length b) else e_size e) (e_complete e) (d_ban d')) /\
+    (d_ban d' = true -> d_ban d0 = true) /\
+    (forall sfx v, aget sfx (d_md d') = Some v -> aget sfx (d_md d0) = Some v).
+Proof. exact Proof.C06.interrupted_removal. Qed.
+Print Assumptions C06_interrupted_removal_partial.
+
+(* 3. Nothing incomplete is reported complete: a blob listed complete after recovery was complete
+   before, or the interrupted operation is its MarkComplete. Nothing is invented either. *)
+Theorem C06_nothing_incomplete_complete : forall c s o k s' x e',
+  reach c s -> wf_op c s o = true -> recover c (crash c s o k) = Some s' ->
+  mem s' x = Some e' -> e_complete e' = true ->
+  (exists e, mem s x = Some e /\ e_complete e = true) \/
+  (o = MarkComplete x /\ exists e, mem s x = Some e /\ e_complete e = false).
+Proof. exact Proof.C06.nothing_incomplete_complete. Qed.
+Print Assumptions C06_nothing_incomplete_complete.
+
+Theorem C06_nothing_invented : forall c s o k s' x,
+  reach c s -> wf_op c s o = true -> recover c (crash c s o k) = Some s' ->
+  mem s' x <> None -> mem s x <> None \/ exists sz, o = Create x sz.
+Proof. exact Proof.C06.nothing_invented. Qed.
+Print Assumptions C06_nothing_invented.
+
+(* 4. Incomplete blobs: restored with their reserved size (and bytes / ban / metadata as before or
+   after the interrupted operation) when RebootIncompleteBlobs is set, dropped — directory
+   included — when it is not. *)
+Theorem C06_incomplete_restored_or_dropped : forall c s o k s' x e,
+  reach c s -> wf_op c s o = true ->
+  mem s x = Some e -> e_complete e = false -> removes o x = false -> o <> MarkComplete x ->
+  recover c (crash c s o k) = Some s' ->
+  if c_ri c
+  then exists d' b', dir_of s' x = Some d' /\ d_data d' = Some b' /\
+         mem s' x = Some (mkment (e_size e) false (d_ban d')) /\
+         (option_map pub (dir_of s x) = Some (pub d') \/
+          option_map pub (dir_of (st_of (step c s o)) x) = Some (pub d'))
+  else mem s' x = None /\ blobs (disk s') x = (None, None).
+Proof. exact Proof.C06.incomplete_restored_or_dropped. Qed.
+Print Assumptions C06_incomplete_restored_or_dropped.
+
+(* 4'. A Create interrupted by the crash: the blob is absent with nothing left on disk, or restored
+   with exactly the size it reserved (never with a stale or empty size). *)
+Theorem C06_inflight_create : forall c s k s' x sz,
+  reach c s -> wf_op c s (Create x sz) = true -> mem s x = None ->
+  recover c (crash c s (Create x sz) k) = Some s' ->
+  (mem s' x = None /\ blobs (disk s') x = (None, None)) \/
+  (c_ri c = true /\ mem s' x = Some (mkment sz false false)).
+Proof. exact Proof.C06.inflight_create. Qed.
+Print Assumptions C06_inflight_create.
+
+(* 4''. A MarkComplete interrupted by the crash: still incomplete (restored / dropped as configured), or
+   complete with its bytes and ban flag, its movable metadata intact and its immovable (even)
+   metadata each either still there or already removed. *)
+Theorem C06_inflight_complete : forall c s k s' x e,
+  reach c s -> wf_op c s (MarkComplete x) = true -> mem s x = Some e -> e_complete e = false ->
+  recover c (crash c s (MarkComplete x) k) = Some s' ->
+  (if c_ri c
+   then exists d' b', dir_of s' x = Some d' /\ d_data d' = Some b' /\
+          mem s' x = Some (mkment (e_size e) false (d_ban d')) /\ option_map pub (dir_of s x) = Some (pub d')
+   else mem s' x = None /\ blobs (disk s') x = (None, None)) \/
+  exists d0 d' b, dir_of s x = Some d0 /\ dir_of s' x = Some d' /\ d_data d0 = Some b /\ d_data d' = Some b /\
+    mem s' x = Some (mkment (N.of_nat (length b)) true (d_ban d')) /\ d_ban d' = d_ban d0 /\
+    (forall sfx, aget sfx (d_md d') = aget sfx (d_md d0) \/ (N.even sfx = true /\ aget sfx (d_md d') = None)).
+Proof. exact Proof.C06.inflight_complete. Qed.
+Print Assumptions C06_inflight_complete.
+
+(* 5. Every key can be created and completed again — in every reachable state, in particular after
+   any crash and recovery, including keys whose creation or deletion the crash interrupted:
+   (Delete if listed, in any legal unlink order,) Create, MarkComplete all succeed. *)
+Theorem C06_keys_reusable : forall c s x sz ord,
+  reach c s ->
+  (mem s x <> None -> legal_order ord (dir_of s x) = true) ->
+  (msize s - size_of (mem s x)) + sz <= c_cap c ->
+  reuse c s x sz ord = true.
+Proof. exact Proof.C06.keys_reusable. Qed.
+Print Assumptions C06_keys_reusable.
+
+Theorem C06_keys_reusable_after_crash : forall c s o k s' x sz ord,
+  reach c s -> wf_op c s o = true -> recover c (crash c s o k) = Some s' ->
+  (mem s' x <> None -> legal_order ord (dir_of s' x) = true) ->
+  (msize s' - size_of (mem s' x)) + sz <= c_cap c ->
+  reuse c s' x sz ord = true.
+Proof. exact Proof.C06.keys_reusable_after_crash. Qed.
+Print Assumptions C06_keys_reusable_after_crash.
+
+(* ... because no reachable state has anything on disk for a key the store does not list, and every
+   listed blob has its data file (within the reservation) and its ban flag on disk. *)
+Theorem C06_memory_matches_disk : forall c s x, reach c s ->
+  match mem s x with
+  | None => blobs (disk s) x = (None, None)
+  | Some e => exists d b, blobs (disk s) x = vset (area_of e) (Some d) (None, None) /\ dir_of s x = Some d /\
+                          d_data d = Some b /\ N.of_nat (length b) <= e_size e /\ d_ban d = e_banned e
+  end.
+Proof. exact Proof.C06.memory_matches_disk. Qed.
+Print Assumptions C06_memory_matches_disk.
+
+(* 6. Size accounting is the sum over the listed blobs (and stays within capacity) ... *)
+Theorem C06_size_is_sum : forall c s, reach c s ->
+  msize s = sum_sizes (mem s) (dom (disk s)) /\ NoDup (dom (disk s)) /\
+  (forall x, mem s x <> None -> In x (dom (disk s))) /\ msize s <= c_cap c.
+Proof. exact Proof.C06.size_is_sum. Qed.
+Print Assumptions C06_size_is_sum.
+
+(* ... and right after ANY successful recovery the summands are: length of the bytes for a complete
+   blob, the size decoded from the `_size` sidecar for an incomplete one. *)
+Theorem C06_recovered_sizes : forall c f s' x e, recover c f = Some s' -> mem s' x = Some e ->
+  msize s' = sum_sizes (mem s') (dom (disk s')) /\
+  exists d, dir_of s' x = Some d /\
+    if e_complete e then exists b, d_data d = Some b /\ e_size e = N.of_nat (length b)
+    else exists sb, d_sizef d = Some sb /\ undec sb = Some (e_size e).
+Proof. exact Proof.C06.recovered_sizes. Qed.
+Print Assumptions C06_recovered_sizes.
+
+(* The recovery of the pinned commit (before fixes/C06_*.patch), [recover_old], violates clauses 1 and 5. *)
+Theorem C06_empty_size_refuted :
+  exists c s o k, reach c s /\ wf_op c s o = true /\ recover_old c (crash c s o k) = None.
+Proof. exact Proof.C06.empty_size_refuted. Qed.
+Print Assumptions C06_empty_size_refuted.
+
+Theorem C06_leftover_dir_refuted :
+  exists c s o k s' x, reach c s /\ wf_op c s o = true /\ recover_old c (crash c s o k) = Some s' /\
+    mem s' x = None /\ reuse c s' x 1 [] = false.
+Proof. exact Proof.C06.leftover_dir_refuted. Qed.
+Print Assumptions C06_leftover_dir_refuted.
+
+Theorem C06_leftover_complete_dir_refuted :
+  exists c s o k s' x, reach c s /\ wf_op c s o = true /\ recover_old c (crash c s o k) = Some s' /\
+    mem s' x = None /\ is_ok (out_of (step c s' (Create x 1))) = true /\
+    out_of (step c (st_of (step c s' (Create x 1))) (MarkComplete x)) = OErr.
+Proof. exact Proof.C06.leftover_complete_dir_refuted. Qed.
+Print Assumptions C06_leftover_complete_dir_refuted.
+
+(* ---- non-vacuity: a reachable state with a complete, banned blob carrying metadata and an
+   incomplete blob; an operation in flight; crash points in its middle; recovery succeeds and
+   shows what the theorems say. *)
+Definition ex_cfg : cfg := mkcfg true 100 3 [(0, [160; 176]); (1, [160; 177])].
+Definition ex_hist : list op :=
+  [Create 0 3; WriteAt 0 0 [97; 98; 99]; SetMd 0 1 [109]; SetMd 0 0 [105]; Ban 0; MarkComplete 0;
+   Create 1 4; WriteAt 1 1 [7; 8]].
+Example C06_nonvacuous_state :
+  wf_all ex_cfg init ex_hist = true /\
+  mem (after ex_cfg init ex_hist) 0 = Some (mkment 3 true true) /\
+  mem (after ex_cfg init ex_hist) 1 = Some (mkment 4 false false) /\
+  option_map pub (dir_of (after ex_cfg init ex_hist) 0) = Some (Some [97; 98; 99], true, [(1, [109])]).
+Proof. vm_compute. repeat split; reflexivity. Qed.
+
+Example C06_nonvacuous_crash_in_setmd :
+  let s := after ex_cfg init ex_hist in
+  let o := SetMd 0 1 [110; 111] in
+  wf_op ex_cfg s o = true /\ removes o 0 = false /\ length (calls_of (step ex_cfg s o)) = 3%nat /\
+  (* tmp file created and written, rename not done: the old metadata is still there *)
+  match recover ex_cfg (crash ex_cfg s o 2) with
+  | Some s' => mem s' 0 = Some (mkment 3 true true) /\
+               option_map pub (dir_of s' 0) = Some (Some [97; 98; 99], true, [(1, [109])]) /\
+               mem s' 1 = Some (mkment 4 false false) /\ msize s' = 7
+  | None => False
+  end /\
+  match recover ex_cfg (crash ex_cfg s o 3) with
+  | Some s' => option_map pub (dir_of s' 0) = Some (Some [97; 98; 99], true, [(1, [110; 111])])
+  | None => False
+  end.
+Proof. vm_compute. repeat split; reflexivity. Qed.
+
+Example C06_nonvacuous_interrupted_delete :
+  let s := after ex_cfg init ex_hist in
+  let o := Delete 0 [FMd 1; FBan; FSize; FData] in
+  wf_op ex_cfg s o = true /\ removes o 0 = true /\
+  match recover ex_cfg (crash ex_cfg s o 2) with          (* metadata and ban flag gone, data still there *)
+  | Some s' => mem s' 0 = Some (mkment 3 true false) /\ option_map pub (dir_of s' 0) = Some (Some [97; 98; 99], false, [])
+               /\ reuse ex_cfg s' 0 5 [FSize; FData] = true
+  | None => False
+  end /\
+  match recover ex_cfg (crash ex_cfg s o 4) with          (* all files unlinked, rmdir not done *)
+  | Some s' => mem s' 0 = None /\ blobs (disk s') 0 = (None, None) /\ reuse ex_cfg s' 0 5 [] = true
+  | None => False
+  end.
+Proof. vm_compute. repeat split; reflexivity. Qed.
+
+Example C06_nonvacuous_inflight_create_and_complete :
+  let s := after ex_cfg init ex_hist in
+  (* crash between create and write of `_size` (point 4 of Create): dropped, nothing left, reusable *)
+  match recover ex_cfg (crash ex_cfg (after ex_cfg init [Create 0 3]) (Create 1 4) 4) with
+  | Some s' => mem s' 1 = None /\ blobs (disk s') 1 = (None, None) /\ reuse ex_cfg s' 1 4 [] = true
+  | None => False
+  end /\
+  (* crash right after MarkComplete's rename of blob 1 (its first call is the mkdir of a shard directory);
+     3 bytes were written of the 4 reserved: the size becomes the real one *)
+  match recover ex_cfg (crash ex_cfg s (MarkComplete 1) 2) with
+  | Some s' => mem s' 1 = Some (mkment 3 true false) /\ msize s' = 6
+  | None => False
+  end.
+Proof. vm_compute. repeat split; reflexivity. Qed.
